@@ -122,17 +122,16 @@ proof fn lemma_rooted_update_open(s: Seq<Event>, i: int, e: Event)
 }
 
 // ---------- C20: where syntax errors point ----------
-// the empty range at the end of the text: `TextRange::empty(TextSize::from(src.len() as u32))` (uninterpreted here; the Kani
-// harness error_contract checks that Parser::error produces exactly this value at end of input)
-uninterp spec fn eof_range(src: Seq<char>) -> TextRange;
+// the empty range at the end of the text: `TextRange::empty(TextSize::from(src.len() as u32))`
+spec fn eof_range(src: &str) -> TextRange { TextRange { start: src.len() as u32, end: src.len() as u32 } }
 // an error range is the whole range of one of the parser's tokens, or the empty range at the end of the text
-spec fn err_range_ok(tokens: Seq<LexToken>, src: Seq<char>, r: TextRange) -> bool {
+spec fn err_range_ok(tokens: Seq<LexToken>, src: &str, r: TextRange) -> bool {
     (exists|i: int| 0 <= i < tokens.len() && (#[trigger] tokens[i]).range == r) || r == eof_range(src)
 }
 
 impl<'i> Parser<'i> {
     spec fn errs_ok(&self) -> bool {
-        forall|j: int| 0 <= j < self.errors@.len() ==> err_range_ok(self.tokens@, self.src@, (#[trigger] self.errors@[j]).range)
+        forall|j: int| 0 <= j < self.errors@.len() ==> err_range_ok(self.tokens@, self.src, (#[trigger] self.errors@[j]).range)
     }
     spec fn kind_at(&self, i: int) -> SyntaxKind {
         if 0 <= i < self.tokens@.len() { self.tokens@[i].kind } else { SyntaxKind::EOF }
